@@ -123,11 +123,16 @@ C11 = [
     _tp("hwloc__osdev_type_snprintf_short", "hp_hwloc__osdev_type_snprintf_short", 2, cost=5, plain_loop_contracts=True, min_lis=0,
         note="snprintf contract for all ostype words and any names table, buffers 0..64 (NULL when 0); loop closed by invariant + decreases"),
     _tp("hwloc__osdev_type_snprintf_normal", "hp_hwloc__osdev_type_snprintf_normal", 2, cost=30, plain_loop_contracts=True,
+        fallback_plain={"defines": {"BUFMAX": 8, "PIECE_MAX": 16}, "unwind": 9},
         note="snprintf contract + termination (decreases) for ALL ostype words (incl. unknown bits) and any names table, buffers 0..64; loop closed by the cursor-triple invariant"),
     _tp("hwloc_obj_type_snprintf.other", "hp_hwloc_obj_type_snprintf", 9, cost=20, defs={"TYPE_SNPRINTF_NOT_OSDEV": None},
         note="snprintf contract for every type value except OS_DEVICE (incl. invalid ones), every attribute union content, every flag word, buffers 0..64"),
     _tp("hwloc_obj_type_snprintf.osdev", "hp_hwloc_obj_type_snprintf", 2, cost=30, plain_loop_contracts=True, defs={"TYPE_SNPRINTF_OSDEV_ONLY": None},
+        fallback_plain={"defines": {"BUFMAX": 8, "PIECE_MAX": 16}, "unwind": 9},
         note="snprintf contract + termination for OS devices: every osdev.types word, every flag word, buffers 0..64"),
+    _tp("hwloc_obj_attr_snprintf", "hp_hwloc_obj_attr_snprintf", 6, cost=60, plain_loop_contracts=True,
+        fallback_plain={"defines": {"BUFMAX": 8, "PIECE_MAX": 16, "INFOMAX": 2}, "unwind": 6},
+        note="snprintf contract + termination for every type, attribute content, flag word, separator (<=2 chars), <= 8 info pairs (strings <= 3 chars), buffers 0..64; info loop closed by the cursor-triple invariant; strchr of libc as modelled by cbmc (unwound 6 times)"),
     _tp("hwloc_compare_types", "hp_hwloc_compare_types", 2, cost=5, driver="topology.drv.c",
         note="antisymmetry, Machine highest, PU deepest, kind predicates vs documented kinds, transitivity, order tables are inverse permutations: all type triples (loop-free, complete)"),
 ]
